@@ -15,6 +15,7 @@ import (
 	"github.com/cloudflare/circl/internal/verifmc"
 	"github.com/cloudflare/circl/internal/verifref/c09ref"
 	"github.com/cloudflare/circl/internal/verifref/ecurve"
+	"github.com/cloudflare/circl/internal/verifref/fpx"
 )
 
 func TestVerifC09_ed25519(t *testing.T) {
@@ -23,23 +24,57 @@ func TestVerifC09_ed25519(t *testing.T) {
 	r.Rule("32-byte strings: [a]G for a in {0,1,2,3,L-1,(L+1)/2,5 SHAKE values} (reference) and public keys made by the library from 5 seeds, all 256 single-bit flips of 4 (quick) / 11 (thorough) of them, " +
 		"the whole 8-torsion alone and added to [s0]G, x=0 with the sign bit, all 19 values y in [p,2^255) with both signs (complete), y+p aliases of the torsion points with y<19, y without x; " +
 		"through pointR1.FromBytes/ToBytes and through Verify with the signature (encoding of the identity, S=0), which verifies exactly for keys of order dividing 8 whatever the message; " +
-		"distinct = distinct (entry point, input bytes)")
+		"every curve point with x or y in {0,+-1,+-sqrt(-1),+-j (j<64)} and the 8 small-order points, built by the reference and serialised by the library's ToBytes (must decode again); " +
+		"FromBytes also into an object that already holds the nearest valid value, and before it; distinct = distinct (entry point, input bytes)")
 	c := ecurve.Edwards25519()
 	cases := c09ref.RFC8032Cases(c, c09ref.EdOptions{FlipBases: r.Pick(4, 11)})
+	// constructed special points (x or y in {0, +-1, +-sqrt(-1), +-j, j<64}; the 8 small-order points): the
+	// library's pointR1 filled with the reference's coordinates and serialised by ToBytes
+	for _, sp := range c09ref.EdSpecial(c, 64) {
+		var P pointR1
+		copy(P.x[:], fpx.ToLE(sp.P.X.A, 32))
+		copy(P.y[:], fpx.ToLE(sp.P.Y.A, 32))
+		P.z[0] = 1
+		P.ta, P.tb = P.x, P.y
+		enc := make([]byte, paramB)
+		if err := P.ToBytes(enc); err != nil {
+			t.Fatal(err)
+		}
+		if string(enc) != string(c09ref.RFC8032Encode(c, sp.P)) {
+			r.Count("library_encoding_differs_from_reference", 1) // the decoder units judge the library's bytes either way
+		}
+		cases = append(cases, c09ref.Case{Name: "speciallib/" + sp.Name, Class: "special-lib", Data: enc})
+	}
 	for i, seed := range verifmc.Seeds(SeedSize, r.Seed()) {
 		pub := NewKeyFromSeed(seed).Public().(PublicKey)
 		cases = append(cases, c09ref.Case{Name: "lib/key" + string(rune('0'+i)), Class: "valid-lib", Data: c09ref.Clone(pub)})
 	}
 	cases = c09ref.Dedup(cases)
 	dec := make([]verifmc.DecCase, len(cases))
+	bases := c09ref.Bases(cases)
 	for i, cs := range cases {
-		dec[i] = verifmc.DecCase{Name: cs.Name, Class: cs.Class, Data: cs.Data}
+		dec[i] = verifmc.DecCase{Name: cs.Name, Class: cs.Class, Data: cs.Data, Base: bases[i]}
 	}
 	ref := func(in []byte) verifmc.DecOracle {
 		v := c09ref.RFC8032Verdict(c, in)
 		return verifmc.DecOracle{Member: v.Member, Reason: v.Reason, Point: v.Point}
 	}
 	r.CheckDecoder(verifmc.DecSpec{Entry: "ed25519.pointR1.FromBytes", Cases: dec, Ref: ref, RefAll: true,
+		Seq: func(first, second []byte) verifmc.DecResult {
+			var P pointR1
+			P.FromBytes(first)
+			if !P.FromBytes(second) {
+				return verifmc.DecResult{}
+			}
+			res := verifmc.DecResult{Accepted: true}
+			out := make([]byte, paramB)
+			if err := P.ToBytes(out); err != nil {
+				res.Note = "ToBytes-fails"
+			}
+			res.Reenc = out
+			res.Point = append(append([]byte{}, P.x[:]...), P.y[:]...)
+			return res
+		},
 		Lib: func(in []byte) verifmc.DecResult {
 			keep := c09ref.Clone(in)
 			var P pointR1
@@ -85,4 +120,6 @@ func TestVerifC09_ed25519(t *testing.T) {
 	r.RequireCounter("in:valid-lib", 2*5)
 	r.RequireCounter("verify_true_with_small_order_key", 4)
 	r.RequireCounter("accepted", 500)
+	r.RequireCounter("in:special-lib", 2*100)
+	r.RequireCounter("reused_receiver_cases", 1000)
 }
